@@ -181,7 +181,7 @@ def explore(kinds, fs, qsize, first, depth, part, flavour):
     def rec(seq):
         if any(x[0] == 'R' for x in seq):
             try:
-                arm_watchdog(20)
+                arm_watchdog(3)  # a sequence takes milliseconds; a library call that no longer returns must not eat the budget
                 s, calls = run_seq(kinds, fs, qsize, seq, flavour)
                 try:
                     v = judge(s, calls, qsize, kinds, fs)
